@@ -9,7 +9,11 @@ R  histories of host operations: the model's five sizes (vm_compute) vs the hook
    value_to_string, imports of real FILE modules (ok / fails at top level / in @main / in a nested import / after a
    nested import succeeded / compile error; re-imported later), failures inside every kind of native re-entry
    (arithmetic, comparison, index, @call, @display-in-interpolation, @next overloads; each / keep / fold / sort /
-   retain callbacks; generators) x (throw, runtime error, type check, timeout) x (bare, caught, in a function, in a list)
+   retain callbacks; generators) x (throw, runtime error, type check, timeout) x (bare, caught, in a function, in a list),
+   generators that fail after k yields while they are resumed (plain / each / keep / zip chains / nested generators;
+   throw, runtime error, type check, in a called function, rethrown, timeout), kept in the exports and pulled again
+   from scripts (next, to_list, to_tuple, for, count) and from the host (run_unary_op Next): a failed generator is
+   finished
 D  after every completed host call the sizes are all zero; the operation's own result equals the same operation on
    a FRESH instance that performed only the completed effects of the earlier operations (so a re-import has to run
    the module again); probe scripts / calls / displays and the exports map agree with such an instance
@@ -24,7 +28,7 @@ from checks import c08 as T
 PID = "C07"
 UNIT = "rt"
 
-PINNED = ["entry_restores_frames", "entry_restores", "history_equiv", "early_exit_restored",
+PINNED = ["entry_restores_frames", "entry_restores", "history_equiv", "early_exit_restored", "failed_generator_is_finished",
           "entry_restores_refuted_builders", "value_to_string_clean", "compile_error_clean"]
 
 KNOWN_B = ("C07b sequence/string builders are not unwound when an error is raised between SequenceStart|StringStart and "
@@ -409,6 +413,82 @@ def reentry_ops(quick_rng=None):
     return ops
 
 
+# ---- generators that fail while they are resumed, kept alive and pulled again --------------------------
+GEN_FAILS = {   # statements that fail inside the generator's own vm; needs a limit
+    "throw": ("throw 'gx'", False),
+    "runtime-error": ("y = 1 + 'a'", False),
+    "type-check": ("let t: String = 1", False),
+    "in-called-function": ("boom 2", False),           # boom = |x| throw 'bad {x}'  (defined by the make script)
+    "in-try-rethrown": ("try\n  throw 'inner'\ncatch e2\n  throw 'outer'", False),
+    "timeout": ("loop\n  q = 1", True),
+}
+GEN_CHAINS = {  # adaptor chains / nesting around the failing generator: (koto suffix or wrapper, value map)
+    "plain": (lambda g: g, lambda v: v),
+    "each": (lambda g: f"{g}.each(|x| x + 1)", lambda v: v + 1),
+    "keep": (lambda g: f"{g}.keep(|x| x > 0)", lambda v: v),
+    "zip": (lambda g: f"{g}.zip(100..200)", None),       # pairs: values are tuples
+    "nested": (None, lambda v: v * 2),                   # an outer generator re-yields the failing inner one
+}
+PULL = "r = try\n  x = g.next()\n  if x then x.get() else 'none'\ncatch e\n  'E'\nr\n"
+CONSUMERS = {
+    "to_list": "r = try\n  g.to_list()\ncatch e\n  'E'\nr\n",
+    "to_tuple": "r = try\n  g.to_tuple()\ncatch e\n  'E'\nr\n",
+    "for": "acc = []\nr = try\n  for v in g\n    acc.push v\n  acc\ncatch e\n  'E'\nr\n",
+    "count": "r = try\n  g.count()\ncatch e\n  'E'\nr\n",
+}
+
+
+def generator_history(rng, fail, chain, k, allow_timeout_limit):
+    """make a generator that fails after k yields (exported: it survives the run), pull k+1 times catching the error,
+    pull again, consume it in several ways, from scripts and from the host; the reference instance holds a generator
+    that simply ENDS where the real one fails (a failed generator is finished)"""
+    stmts, needs_limit = GEN_FAILS[fail]
+    vals = [10, 20, 30][:k]
+    body = "\n".join(f"yield {v}" for v in vals) + ("\n" if vals else "") + stmts + "\nyield 70\nyield 80"
+    wrap, vmap = GEN_CHAINS[chain]
+    base = "boom = |x| throw 'bad {x}'\ninner = ||\n" + ind(body) + "\n"
+    if chain == "nested":
+        make_src = base + "outer = ||\n  for v in inner()\n    yield v * 2\n  yield 99\nexport g = outer()\n"
+    else:
+        make_src = base + "export g = " + wrap("inner()") + "\n"
+    if chain == "zip":
+        exp = "[" + ", ".join(f"({v}, {100 + i})" for i, v in enumerate(vals)) + "]"
+    else:
+        exp = "[" + ", ".join(str(vmap(v)) for v in vals) + "]"
+    ref_make = f"export g = (||\n  for v in {exp}\n    yield v\n)()\n"
+    mk = lambda label, impl, ref, model, **kw: dict({"impl": impl, "ref": ref, "model": model, "classes": set(),
+                                                    "label": label, "same_ref": False, "timeout": needs_limit}, **kw)
+    run = lambda src: {"op": "run", "src": src}
+    tag = f"{fail}/{chain}/k{k}"
+    ops = [mk(f"gen:make/{tag}", run(make_src), run(ref_make), [f"HRun {R} Nop"], no_oracle=True)]
+    host_pull = {"op": "unop", "which": "next", "name": "g"}
+    for i in range(k):
+        if rng.below(3) == 0:
+            ops.append(mk("gen:host-pull", host_pull, host_pull, ["HUnopPlain"], same_ref=True))
+        else:
+            ops.append(mk("gen:pull", run(PULL), run(PULL), [f"HRun {R} (Try Nop Nop)"], same_ref=True))
+    # the pull that runs into the failure: the error is delivered (and, in a script, caught); on the reference the
+    # generator just ends here
+    if rng.below(3) == 0:
+        ops.append(mk(f"gen:failing-host-pull/{tag}", host_pull, host_pull, ["HUnopPre"], no_oracle=True, expect_error=True))
+    else:
+        which = rng.below(3)
+        src = PULL if which else CONSUMERS[rng.choice(list(CONSUMERS))]
+        ops.append(mk(f"gen:failing-pull/{tag}", run(src), run(src), [f"HRun {R} (Try Fail Nop)"], no_oracle=True,
+                      expect_r='s"E"'))
+    # afterwards the generator is finished, whoever asks and however often
+    for i in range(2 + rng.below(3)):
+        r3 = rng.below(4)
+        if r3 == 0:
+            ops.append(mk(f"gen:host-pull-after-failure/{tag}", host_pull, host_pull, ["HUnopPlain"], same_ref=True))
+        elif r3 == 1:
+            c = rng.choice(list(CONSUMERS))
+            ops.append(mk(f"gen:{c}-after-failure/{tag}", run(CONSUMERS[c]), run(CONSUMERS[c]), [f"HRun {R} (Try Nop Nop)"], same_ref=True))
+        else:
+            ops.append(mk(f"gen:pull-after-failure/{tag}", run(PULL), run(PULL), [f"HRun {R} (Try Nop Nop)"], same_ref=True))
+    return {"ops": ops, "limit": 300 if needs_limit else None, "origin": "generators"}
+
+
 def import_ops(moddir):
     ops = []
     k = 0
@@ -504,6 +584,17 @@ def gen_histories(tier, seed, moddir):
             else:
                 ops.append(rng.choice([o for o in fixed if not o["timeout"]]))
         hs.append({"ops": ops, "limit": None, "origin": "reentry-random"})
+    # --- generators failing while resumed, kept and pulled again
+    fix_tail = [by_label[x] for x in ("call:koto-str-ok", "run:throws-after-effects", "call:koto-ok")]
+    for fail in GEN_FAILS:
+        for chain in GEN_CHAINS:
+            ks = [rng.below(3)] if tier == "quick" else [0, 1, 2]
+            if GEN_FAILS[fail][1] and tier == "quick" and chain not in ("plain", "nested"):
+                continue
+            for k in ks:
+                h = generator_history(rng, fail, chain, k, True)
+                h["ops"] = h["ops"] + [fix_tail[rng.below(len(fix_tail))]]
+                hs.append(h)
     # random histories
     n = 120 if tier == "quick" else 1500
     maxlen = 6 if tier == "quick" else 30
@@ -588,7 +679,7 @@ def flatten(h):
                 add(o["of"], "op", want_oracle=(i == 0 or i == o["repeat"] - 1))
             probes()
         else:
-            add(o, "op", want_oracle=True)
+            add(o, "op", want_oracle=not o.get("no_oracle"))
             probes()
     return main, ref, model, plan, oracles
 
@@ -601,7 +692,8 @@ def run(tier, seed):
     chk = C.Check(PID, tier, seed, "partial")
     try:
         k2v_rt.gen_rt(os.path.join(C.COQ, UNIT, "GenRtConsts.v"), os.path.join(C.BUILD, "gen", f"timer_driver_{C.repo_tag()}.rs"))
-        chk.oblige("gen:rt (k2v_rt: allow_catch at both unwinding call sites of execute_instructions)", True)
+        chk.oblige("gen:rt (k2v_rt: allow_catch at both unwinding call sites of execute_instructions; the unwinding stops "
+                   "at execution barriers only)", True)
         gen_ok = True
     except k2v.GenError as e:
         chk.oblige("gen:rt", False, str(e))
@@ -735,6 +827,11 @@ def run(tier, seed):
                                                   f"{['Ok', 'Err', 'Err(Timeout)', 'panic'][mstate[0]]}"))
                 if mstate[1][5] != 0:
                     disagreements.append((hi, si, f"model leaves {mstate[1][5]} module-cache placeholders"))
+            if t is not None and t.get("expect_r") is not None and s["r"] != t["expect_r"]:
+                fails.append(f"the pull that runs into the generator's failure returned {s['r']}, expected {t['expect_r']} "
+                             f"(the error delivered and caught)")
+            if t is not None and t.get("expect_error") and not s["r"].startswith("E"):
+                fails.append(f"the host pull that runs into the generator's failure returned {s['r']} instead of the error")
             # D3: the operation's own result equals the same operation on a FRESH instance that performed only the
             # completed effects of the earlier operations
             if p.get("oracle") is not None:
